@@ -137,12 +137,15 @@ pub struct WorldCfg {
     pub debug_mode: bool,
     pub pairing: bool,
     pub tokens: Vec<PTok>,
+    /// serve over a loopback TCP socket (`handle_client`) instead of a unix socket (`handle_unix_client`)
+    pub tcp: bool,
 }
 
 pub struct World {
     pub state: Arc<ControlState>,
     pub dir: PathBuf,
     pub sock: PathBuf,
+    pub tcp_addr: Option<std::net::SocketAddr>,
     pub clock: Arc<AtomicU64>,
     pub commands: Arc<Mutex<Vec<String>>>,
     pub store: Option<Arc<PairingStore>>,
@@ -219,6 +222,33 @@ fn listener_fd_for(path: &Path) -> Vec<i32> {
     v
 }
 
+/// The fd of this process's TCP socket listening on loopback `port` (via /proc/net/tcp).
+fn tcp_listener_fd_for(port: u16) -> Vec<i32> {
+    let want = format!("0100007F:{port:04X}");
+    let mut inodes = Vec::new();
+    if let Ok(text) = std::fs::read_to_string("/proc/net/tcp") {
+        for line in text.lines().skip(1) {
+            let cols: Vec<&str> = line.split_whitespace().collect();
+            if cols.len() >= 10 && cols[1] == want && cols[3] == "0A" {
+                inodes.push(format!("socket:[{}]", cols[9]));
+            }
+        }
+    }
+    let mut v = Vec::new();
+    if let Ok(rd) = std::fs::read_dir("/proc/self/fd") {
+        for e in rd.flatten() {
+            if let Ok(n) = e.file_name().to_string_lossy().parse::<i32>() {
+                if let Ok(target) = std::fs::read_link(e.path()) {
+                    if inodes.iter().any(|i| target.to_string_lossy() == *i) {
+                        v.push(n);
+                    }
+                }
+            }
+        }
+    }
+    v
+}
+
 fn open_fds() -> Vec<i32> {
     std::fs::read_dir("/proc/self/fd")
         .map(|rd| rd.flatten().filter_map(|e| e.file_name().to_string_lossy().parse::<i32>().ok()).collect())
@@ -239,7 +269,6 @@ impl World {
     }
 
     fn new_inner(base: &mut Base, cfg: &WorldCfg) -> World {
-        let t00 = std::time::Instant::now();
         let seq = WORLD_SEQ.fetch_add(1, Ordering::SeqCst);
         let tmp = if Path::new("/dev/shm").is_dir() { PathBuf::from("/dev/shm") } else { std::env::temp_dir() };
         let dir = tmp.join(format!("vh-c18-{}-{}", std::process::id(), seq));
@@ -247,8 +276,6 @@ impl World {
         let root = dir.join("project");
         std::fs::create_dir_all(&root).expect("mkdir world");
         std::fs::write(root.join("hmi.toml"), HMI_TOML).expect("hmi.toml");
-
-        if std::env::var("VH_PROF").is_ok() { eprintln!("A-dirs {}", t00.elapsed().as_micros()); }
         // debugger control with a snapshot of the compiled program's storage
         let debug = DebugControl::new();
         {
@@ -268,8 +295,6 @@ impl World {
         );
         debug.force_global("g_forced", Value::Bool(true));
         debug.force_io(IoAddress::parse("%IX7.7").expect("addr"), Value::Bool(true));
-
-        if std::env::var("VH_PROF").is_ok() { eprintln!("B-debug {}", t00.elapsed().as_micros()); }
         // resource stub + responder thread (logs every command; answers the ones that want an answer)
         let (resource, cmd_rx) = ResourceControl::stub(StdClock::new());
         let commands: Arc<Mutex<Vec<String>>> = Arc::new(Mutex::new(Vec::new()));
@@ -300,8 +325,6 @@ impl World {
                 }
             });
         }
-
-        if std::env::var("VH_PROF").is_ok() { eprintln!("C-resource {}", t00.elapsed().as_micros()); }
         let sources = SourceRegistry::new(vec![SourceFile {
             id: 1,
             path: PathBuf::from("main.st"),
@@ -311,8 +334,6 @@ impl World {
             Some(&root),
             &sources,
         )));
-
-        if std::env::var("VH_PROF").is_ok() { eprintln!("D-hmidesc {}", t00.elapsed().as_micros()); }
         // pairing store with a controllable clock and a prepared token file
         let clock = Arc::new(AtomicU64::new(NOW0));
         let (store, pending_code) = if cfg.pairing {
@@ -336,8 +357,6 @@ impl World {
         } else {
             (None, None)
         };
-
-        if std::env::var("VH_PROF").is_ok() { eprintln!("E-pairing {}", t00.elapsed().as_micros()); }
         let state = ControlState {
             debug,
             resource,
@@ -366,8 +385,6 @@ impl World {
             historian: None,
             pairing: store.clone(),
         };
-
-        if std::env::var("VH_PROF").is_ok() { eprintln!("F-state {}", t00.elapsed().as_micros()); }
         // raise the alarm of `speed` (120 > max 100) exactly as hmi.alarms.get would
         let alarm_id = {
             let descriptor = state.hmi_descriptor.lock().unwrap().clone();
@@ -389,17 +406,35 @@ impl World {
                 .and_then(|a| a["id"].as_str())
                 .map(str::to_string)
         };
-
-        if std::env::var("VH_PROF").is_ok() { eprintln!("G-alarm {}", t00.elapsed().as_micros()); }
         let state = Arc::new(state);
         let sock = dir.join("c.sock");
-        ControlServer::start(ControlEndpoint::Unix(sock.clone()), state.clone()).expect("start control server");
-        let listener_fds: Vec<i32> = listener_fd_for(&sock);
-        if std::env::var("VH_PROF").is_ok() { eprintln!("H-server {}", t00.elapsed().as_micros()); }
+        let mut tcp_addr = None;
+        if cfg.tcp {
+            // a free loopback port (probe, release, bind again; retried if somebody else grabbed it)
+            for _ in 0..20 {
+                let port = std::net::TcpListener::bind("127.0.0.1:0")
+                    .and_then(|l| l.local_addr())
+                    .map(|a| a.port())
+                    .unwrap_or(0);
+                let addr: std::net::SocketAddr = format!("127.0.0.1:{port}").parse().unwrap();
+                if port != 0 && ControlServer::start(ControlEndpoint::Tcp(addr), state.clone()).is_ok() {
+                    tcp_addr = Some(addr);
+                    break;
+                }
+            }
+        }
+        let listener_fds: Vec<i32> = match tcp_addr {
+            Some(addr) => tcp_listener_fd_for(addr.port()),
+            None => {
+                ControlServer::start(ControlEndpoint::Unix(sock.clone()), state.clone()).expect("start control server");
+                listener_fd_for(&sock)
+            }
+        };
         World {
             state,
             dir,
             sock,
+            tcp_addr,
             clock,
             commands,
             store,
@@ -422,7 +457,7 @@ impl World {
             })
             .is_ok()
         {
-            let _ = rx.recv_timeout(Duration::from_secs(5));
+            let _ = rx.recv_timeout(Duration::from_secs(120));
         }
     }
 
@@ -486,15 +521,29 @@ impl World {
     }
 
     pub fn connect(&self) -> Client {
-        self.connect_with_timeout(Duration::from_secs(4))
+        // generous: a time-out must never be mistaken for a hang on a loaded machine
+        self.connect_with_timeout(Duration::from_secs(60))
     }
 
     pub fn connect_with_timeout(&self, timeout: Duration) -> Client {
-        let stream = UnixStream::connect(&self.sock).expect("connect to the control socket");
-        stream.set_read_timeout(Some(timeout)).unwrap();
-        Client {
-            reader: BufReader::new(stream.try_clone().unwrap()),
-            writer: stream,
+        match self.tcp_addr {
+            Some(addr) => {
+                let stream = std::net::TcpStream::connect(addr).expect("connect to the control port");
+                stream.set_read_timeout(Some(timeout)).unwrap();
+                let _ = stream.set_nodelay(true);
+                Client {
+                    reader: BufReader::new(Box::new(stream.try_clone().unwrap())),
+                    writer: Box::new(stream),
+                }
+            }
+            None => {
+                let stream = UnixStream::connect(&self.sock).expect("connect to the control socket");
+                stream.set_read_timeout(Some(timeout)).unwrap();
+                Client {
+                    reader: BufReader::new(Box::new(stream.try_clone().unwrap())),
+                    writer: Box::new(stream),
+                }
+            }
         }
     }
 }
@@ -546,8 +595,8 @@ fn fnv(data: &[u8]) -> u64 {
 }
 
 pub struct Client {
-    reader: BufReader<UnixStream>,
-    writer: UnixStream,
+    reader: BufReader<Box<dyn std::io::Read + Send>>,
+    writer: Box<dyn Write + Send>,
 }
 
 pub enum Reply {
@@ -1075,7 +1124,7 @@ struct CaseWriter<'a> {
 
 fn world_lines(cfg: &WorldCfg, w: &World, out: &mut Out) {
     out.line(format!(
-        "world token={} reqauth={} debug={} mode={} pairing={} now={}",
+        "world token={} reqauth={} debug={} mode={} pairing={} now={} transport={}",
         match &cfg.token {
             Some(t) => format!("s{}", hexs(t)),
             None => "none".into(),
@@ -1084,8 +1133,10 @@ fn world_lines(cfg: &WorldCfg, w: &World, out: &mut Out) {
         cfg.debug_enabled as u8,
         if cfg.debug_mode { "debug" } else { "prod" },
         cfg.pairing as u8,
-        NOW0
+        NOW0,
+        if w.tcp_addr.is_some() { "tcp" } else { "unix" }
     ));
+    out.count(if w.tcp_addr.is_some() { "transport:tcp" } else { "transport:unix" });
     if cfg.pairing {
         for t in &cfg.tokens {
             out.line(format!(
@@ -1224,6 +1275,7 @@ fn gen_cfg(rng: &mut Rng, force: Option<(bool, bool, bool)>) -> WorldCfg {
         debug_mode,
         pairing: !rng.chance(1, 8),
         tokens: std_tokens(),
+        tcp: rng.chance(1, 10),
     }
 }
 
@@ -1273,11 +1325,22 @@ fn garbled_line(rng: &mut Rng, t: &Tables) -> Vec<u8> {
             }
             s.into_bytes()
         }
-        14 => format!("{{\"id\":1,\"type\":\"{}\",\"id\":2}}", h.name).into_bytes(),
+        14 => match rng.below(4) {
+            0 => format!("{{\"id\":1,\"type\":\"{}\",\"id\":2}}", h.name).into_bytes(),
+            // serde accepts a sequence for a struct: [id, type, params, auth]
+            1 => format!("[{},\"{}\",null,null]", rng.below(1000), h.name).into_bytes(),
+            // oversized but well-formed (unknown members are ignored)
+            2 => format!("{{\"id\":3,\"type\":\"{}\",\"pad\":\"{}\"}}", h.name, "a".repeat(100_000 + rng.below(200_000) as usize)).into_bytes(),
+            // far beyond serde_json's recursion limit
+            _ => "[".repeat(20_000).into_bytes(),
+        },
         _ => {
             // byte-level mutation of a valid request
             let mut b = serde_json::to_vec(&valid).unwrap();
             for _ in 0..1 + rng.below(3) {
+                if b.is_empty() {
+                    break;
+                }
                 let i = rng.below(b.len() as u64) as usize;
                 match rng.below(4) {
                     0 => b[i] = rng.below(256) as u8,
@@ -1491,7 +1554,7 @@ fn run_case(n: u64, args: &Args, base: &mut Base, t: &Tables, out: &mut Out) {
 fn replay_findings(base: &mut Base, out: &mut Out) {
     // (1) a request line that is not valid UTF-8: the connection is dropped without a reply
     {
-        let cfg = WorldCfg { token: None, requires_auth: false, debug_enabled: true, debug_mode: false, pairing: false, tokens: vec![] };
+        let cfg = WorldCfg { token: None, requires_auth: false, debug_enabled: true, debug_mode: false, pairing: false, tokens: vec![], tcp: false };
         let w = World::new(base, &cfg);
         let mut c = w.connect();
         let r = c.send(b"{\"id\":1,\"type\":\"status\",\"x\":\"\xff\"}");
@@ -1501,7 +1564,7 @@ fn replay_findings(base: &mut Base, out: &mut Out) {
     // (2) debug.evaluate with an expression that parses: handle_debug_evaluate holds the metadata lock
     //     while evaluate_with_snapshot locks it again
     {
-        let cfg = WorldCfg { token: None, requires_auth: false, debug_enabled: true, debug_mode: true, pairing: false, tokens: vec![] };
+        let cfg = WorldCfg { token: None, requires_auth: false, debug_enabled: true, debug_mode: true, pairing: false, tokens: vec![], tcp: false };
         let w = World::new(base, &cfg);
         let mut c = w.connect_with_timeout(Duration::from_millis(1500));
         let r = c.send(b"{\"id\":2,\"type\":\"debug.evaluate\",\"params\":{\"expression\":\"1 + 1\"}}");
